@@ -333,6 +333,26 @@ Section WithPlan.
     check_storage ;;;
     with_lock (renew_body cfg sp orc force).
 
+  (** ** the retrying entry points (ObtainCertAsync / RenewCertAsync; also what ManageAsync, on-demand
+      issuance and forceRenew call): pre-check, checkStorage and the lock are taken once, then
+      doWithRetry re-runs the per-attempt closure - which is exactly [obtain_body] / [renew_body], a new key
+      per attempt included - until it succeeds or fails with a non-retryable error. The issuers'
+      answers differ per attempt ([o] for the first, [more] for the following ones); the failure of
+      the last listed attempt is final (the issuer doubles make it non-retryable). *)
+  Fixpoint retry {A} (body : oracle -> M A) (o : oracle) (more : list oracle) : M A :=
+    match more with
+    | [] => body o
+    | o' :: r => x <- catch (body o) ;; match x with inl a => ret a | inr _ => retry body o' r end
+    end.
+  Definition obtain_async (cfg : config) (sp : subject) (o : oracle) (more : list oracle) : M unit :=
+    pre <- has_any (issuers cfg) (s_pre sp) ;;
+    if pre then ret tt else
+    check_storage ;;;
+    with_lock (retry (obtain_body cfg sp) o more).
+  Definition renew_async (cfg : config) (sp : subject) (o : oracle) (more : list oracle) (force : bool) : M unit :=
+    check_storage ;;;
+    with_lock (retry (fun x => renew_body cfg sp x force) o more).
+
   (** ** forceRenew / moveCompromisedPrivateKey *)
   Definition move_compromised (i : nat) (d : N) : M unit :=
     v <- load (i, d, FKey) ;;
